@@ -68,7 +68,7 @@ func drawScript(t *rapid.T, tag byte, withDialect bool, key *[32]byte, maxSeg in
 	for i := 0; i < n; i++ {
 		kinds := []string{"valid-raw", "valid-raw", "junk"}
 		if withDialect {
-			kinds = append(kinds, "valid-debug", "valid-debug", "badcrc")
+			kinds = append(kinds, "valid-debug", "valid-debug", "badcrc", "badcrc-noncanonical")
 		}
 		if key != nil {
 			kinds = append(kinds, "badsig", "unsigned", "badsig-future")
@@ -96,8 +96,31 @@ func drawScript(t *rapid.T, tag byte, withDialect bool, key *[32]byte, maxSeg in
 			idx++
 		case "valid-raw", "valid-debug":
 			f := tagged(tag, idx, strings.TrimPrefix(k, "valid-"), v2, key, ts)
+			if f.V2 {
+				// the compatibility flags are the sender's business: a receiver ignores what it does not know
+				f.Compat = rapid.SampledFrom([]byte{0, 0, 0, 1, 2, 0x80, 0xFF}).Draw(t, "compat_flags")
+				if f.Compat != 0 {
+					if k == "valid-debug" {
+						f.Checksum = f.ChecksumFor(lay(debugMsgID).CRCExtra)
+					}
+					if key != nil {
+						f.Sig = f.SignatureFor(*key)
+					}
+				}
+			}
 			out = append(out, seg{kind: k, bytes: f.Bytes(), idx: idx})
 			idx++
+		case "badcrc-noncanonical":
+			// a complete v2 frame whose payload keeps the zero bytes a sender may leave at the end, with one payload
+			// bit damaged on the way: its checksum no longer fits, so it is rejected input like any other
+			f := tagged(tag, 9995, "debug", true, key, ts)
+			f.Payload = lay(debugMsgID).EncodeFull(debugValue(tag, 9995), true)
+			f.Checksum = f.ChecksumFor(lay(debugMsgID).CRCExtra)
+			f.Payload[rapid.IntRange(0, 3).Draw(t, "dmg_byte")] ^= 1 << uint(rapid.IntRange(0, 7).Draw(t, "dmg_bit"))
+			if key != nil {
+				f.Sig = f.SignatureFor(*key)
+			}
+			out = append(out, seg{kind: k, bytes: f.Bytes()})
 		case "badcrc":
 			f := tagged(tag, 9999, "debug", v2, key, ts)
 			f.Checksum ^= uint16(rapid.IntRange(1, 0xFFFF).Draw(t, "crcx"))
